@@ -5,8 +5,8 @@
 #include "oracle.h"
 
 enum { L_REIM, L_CPLX };
-enum { I_NATIVE, I_GENERIC, I_REF_DIRECT, I_AVX_DIRECT, I_BFS_REF, I_REC_REF, I_LEAF_REF, I_LEAF_AVX, N_IMPL };
-static const char* impl_name[] = {"dispatch-native", "dispatch-generic", "ref-direct", "avx2-direct", "bfs16-ref", "rec16-ref", "leaf-ref", "leaf-avx"};
+enum { I_NATIVE, I_GENERIC, I_REF_DIRECT, I_AVX_DIRECT, I_BFS_REF, I_REC_REF, I_LEAF_REF, I_LEAF_AVX, I_BUILTIN_BUF, N_IMPL };
+static const char* impl_name[] = {"dispatch-native", "dispatch-generic", "ref-direct", "avx2-direct", "bfs16-ref", "rec16-ref", "leaf-ref", "leaf-avx", "builtin-buffers"};
 enum { X_RANDOM, X_IMPULSE, X_CONSTANT, X_RESONANT, X_DYNRANGE, X_INTEGER, X_TINY, X_HUGE, N_XFAM };
 static const char* xfam_name[] = {"random", "impulse", "constant", "resonant", "dynrange", "integer50", "scale2^-900", "scale2^+900"};
 
@@ -116,6 +116,35 @@ static int run_impl(int layout, int impl, int inverse, uint64_t m, double* buf, 
         if (inverse) cplx_ifft((CPLX_IFFT_PRECOMP*)t, buf);
         else cplx_fft((CPLX_FFT_PRECOMP*)t, buf);
       }
+      return 1;
+    }
+    case I_BUILTIN_BUF: {
+      // a table created with two built-in buffers: the data is transformed inside buffer 0 and buffer 1, then once
+      // more in the caller's buffer; all three must agree bit for bit (the buffers must not overlap the twiddles)
+      const size_t nb = 2 * m * 8;
+      double* copy = malloc(nb);
+      memcpy(copy, buf, nb);
+      void* t;
+      double *b0, *b1;
+      if (layout == L_REIM) {
+        t = inverse ? (void*)new_reim_ifft_precomp((uint32_t)m, 2) : (void*)new_reim_fft_precomp((uint32_t)m, 2);
+        b0 = inverse ? reim_ifft_precomp_get_buffer(t, 0) : reim_fft_precomp_get_buffer(t, 0);
+        b1 = inverse ? reim_ifft_precomp_get_buffer(t, 1) : reim_fft_precomp_get_buffer(t, 1);
+      } else {
+        t = inverse ? (void*)new_cplx_ifft_precomp((uint32_t)m, 2) : (void*)new_cplx_fft_precomp((uint32_t)m, 2);
+        b0 = inverse ? cplx_ifft_precomp_get_buffer(t, 0) : cplx_fft_precomp_get_buffer(t, 0);
+        b1 = inverse ? cplx_ifft_precomp_get_buffer(t, 1) : cplx_fft_precomp_get_buffer(t, 1);
+      }
+      memcpy(b0, copy, nb);
+      memcpy(b1, copy, nb);
+      for (int k = 0; k < 3; k++) {
+        double* d = k == 0 ? b0 : (k == 1 ? b1 : buf);
+        if (layout == L_REIM) { if (inverse) reim_ifft(t, d); else reim_fft(t, d); }
+        else { if (inverse) cplx_ifft(t, d); else cplx_fft(t, d); }
+      }
+      if (memcmp(b0, buf, nb) || memcmp(b1, buf, nb)) viol("oracle", "transform inside a built-in buffer of the table differs from the transform in a caller buffer (m=%" PRIu64 " %s %s)", m, layout == L_REIM ? "reim" : "cplx", inverse ? "ifft" : "fft");
+      free(copy);
+      free(t);
       return 1;
     }
     case I_REF_DIRECT:
